@@ -38,7 +38,7 @@ fn eval(scene: &Scene) -> Result<SceneStats, Violation> {
     let got = match render(scene) {
         Ok(g) => g,
         Err(p) => {
-            if p.contains("sw-composite") && p.contains("overflow") {
+            if crate::checks::common::is_dependency_panic(&p) {
                 return Ok(st);
             }
             return Err(Violation::new("scene/panic", scene.to_string(), p));
@@ -47,7 +47,7 @@ fn eval(scene: &Scene) -> Result<SceneStats, Violation> {
     let reference = match Machine::run(scene.w, scene.h, scene.dst.pixels(scene.w, scene.h), &scene.ops) {
         Ok(r) => r,
         Err(p) => {
-            if p.contains("sw-composite") && p.contains("overflow") {
+            if crate::checks::common::is_dependency_panic(&p) {
                 let mut s2 = st;
                 s2.foreign = true;
                 return Ok(s2);
